@@ -387,6 +387,17 @@ macro_rules! family {
                         s.p_rm3("Mat3::from_rotation_z", $M3::from_rotation_z(angle(c)));
                         if let Some(m) = pick(c, &s.rm3) { s.p_rig_a3("Affine3::from_mat3(rotation)", $A3::from_mat3(m)); s.p_rig4("Mat4::from_mat3(rotation)", $M4::from_mat3(m)); }
                         if $f32only { f32only_rot_ctors(c, s); }
+                        // scale constructors: the documented violation is an all-zero scale; one or two zero components are valid
+                        {
+                            let sc = seed_scale(c);
+                            let z3 = match c.idx(6) { 0 => $V3::new(0.0, sc.y, sc.z), 1 => $V3::new(sc.x, 0.0, sc.z), 2 => $V3::new(sc.x, sc.y, -0.0), 3 => $V3::new(0.0, 0.0, sc.z), 4 => $V3::new(sc.x, 0.0, 0.0), _ => sc };
+                            let z2 = match c.idx(3) { 0 => $V2::new(0.0, sc.y), 1 => $V2::new(sc.x, -0.0), _ => $V2::new(sc.x, sc.y) };
+                            s.om4($M4::from_scale(z3));
+                            s.om3($M3::from_scale(z2));
+                            s.om3($M3::from_diagonal(z3));
+                            s.oa3($A3::from_scale(z3));
+                            s.oa2($A2::from_scale(z2));
+                        }
                         if fed { s.consumer_steps_on_produced += 1; }
                         "rotation constructors (3x3 / affine)"
                     }
